@@ -263,7 +263,7 @@ def _configs(tier):
     return out
 
 
-def _make(cf, extra_hooks=()):
+def _make(cf, extra_hooks=(), shared=None, adaptive=False):
     from pySDC.implementations.controller_classes.controller_nonMPI import controller_nonMPI
     from pySDC.implementations.problem_classes.TestEquation_0D import testequation0d, test_equation_IMEX
     from pySDC.implementations.sweeper_classes.generic_implicit import generic_implicit
@@ -280,7 +280,18 @@ def _make(cf, extra_hooks=()):
     d.update(sweeper_params=sp, level_params=dict(dt=0.125, restol=1e-9, **({'nsweeps': cf['nsweeps']} if cf.get('nsweeps') else {})), step_params=dict(maxiter=25 if cf.get('nsweeps') else 6))
     if cf['nlev'] == 2:
         d['space_transfer_class'] = mesh_to_mesh
-    return controller_nonMPI(num_procs=cf['nprocs'], controller_params=dict(logger_level=40, hook_class=[LogSolution] + list(extra_hooks), dump_setup=False, mssdc_jac=False), description=d)
+    cp = dict(logger_level=40, hook_class=[LogSolution] + list(extra_hooks), dump_setup=False, mssdc_jac=False)
+    if shared is not None:
+        # the user keeps ONE controller-parameter dictionary and one set of parameter dictionaries for several controllers
+        cp = shared.setdefault('controller_params', cp)
+        for k in ('problem_params', 'sweeper_params', 'level_params', 'step_params'):
+            d[k] = shared.setdefault(k, d[k])
+    if adaptive:
+        from pySDC.implementations.convergence_controller_classes.adaptivity import Adaptivity
+
+        d['convergence_controllers'] = {Adaptivity: dict(e_tol=1e-6)}
+        d['level_params'] = dict(d['level_params'], restol=-1.0)  # Adaptivity insists on a fixed number of sweeps (own copy: the shared one keeps its tolerance)
+    return controller_nonMPI(num_procs=cf['nprocs'], controller_params=cp, description=d)
 
 
 def _observe(res):
@@ -335,6 +346,22 @@ def bounded_runs(tier, seed):
         cb.run(u0=u0, t0=0.0, Tend=dt * 2)
         ra = _observe(ca.run(u0=u0, t0=0.0, Tend=Tend))
         rec('other_controller_in_the_process_has_no_influence', cf, ra == r1)
+        # (c') ... also one with the SAME kind of initial guess (random guesses: every sweeper owns its generator), constructed and run between
+        #      construction and run of the observed controller
+        ca = _make(cf)
+        cb = _make(dict(other, guess=cf['guess']))
+        cb.run(u0=u0, t0=0.0, Tend=dt * 2)
+        ra = _observe(ca.run(u0=u0, t0=0.0, Tend=Tend))
+        rec('other_controller_with_the_same_kind_of_initial_guess_has_no_influence', cf, ra == r1)
+        # (c'') the user's dictionaries are shared: an ADAPTIVE controller (registers hooks and status variables) is built and run from them first,
+        #       then the observed controller is built from the very same dictionaries
+        shared = {}
+        cadapt = _make(dict(cf, nprocs=1, nlev=1), shared=shared, adaptive=True)
+        cadapt.run(u0=u0, t0=0.0, Tend=dt * 2)
+        if cf['nlev'] == 1:
+            ra = _observe(_make(cf, shared=shared).run(u0=u0, t0=0.0, Tend=Tend))
+            rec('controller_built_from_dictionaries_an_adaptive_controller_used_before_is_unaffected', cf, ra == r1,
+                'statistics keys only here: ' + str(sorted({k[0][5] if isinstance(k[0], tuple) and len(k[0]) > 5 else k[0] for k in set(ra) ^ set(r1)})[:200]))
         # (d) split at a block boundary
         cs = _make(cf)
         Tmid = dt * n
@@ -365,19 +392,65 @@ def bounded_runs(tier, seed):
                              failures=sum(1 for o in obs if o['status'] != 'proved')))
 
 
+def check_random_generator_ownership(tier, seed):
+    """frame clause on the process-global random stream: constructing sweepers with initial_guess='random', cloning their steps and predicting leaves
+    numpy's global generator state untouched, and every sweeper (every clone) draws from a generator object of its own"""
+    import copy
+    from pySDC.core.level import Level
+    from pySDC.implementations.problem_classes.TestEquation_0D import testequation0d
+    from pySDC.implementations.sweeper_classes.generic_implicit import generic_implicit
+    from pySDC.implementations.sweeper_classes.imex_1st_order import imex_1st_order
+    from pySDC.implementations.problem_classes.TestEquation_0D import test_equation_IMEX
+
+    np.random.seed(seed + 12345)
+    fails = dict(global_random_state_untouched=[], each_sweeper_owns_its_generator=[], same_seed_same_guess=[])
+    cases = 0
+    for sw, pc, pp in ((generic_implicit, testequation0d, dict(lambdas=np.array([-1.0, -2.0]), u0=1.0)),
+                       (imex_1st_order, test_equation_IMEX, dict(lambdas_implicit=np.array([-1.0, -2.0]), lambdas_explicit=np.array([0.1, 0.2]), u0=1.0))):
+        for rs in (None, 7):
+            cases += 1
+            before = np.random.get_state()
+            sp = dict(num_nodes=3, quad_type='RADAU-RIGHT', initial_guess='random')
+            if rs is not None:
+                sp['random_seed'] = rs
+            Ls = [Level(problem_class=pc, problem_params=dict(pp), sweeper_class=sw, sweeper_params=dict(sp), level_params=dict(dt=0.1), level_index=0) for _ in range(2)]
+            guesses = []
+            for L in Ls:
+                L.status.time = 0.0
+                L.u[0] = L.prob.u_exact(0.0)
+                L.status.unlocked = True
+                L.sweep.predict()
+                guesses.append(np.array([np.asarray(u) for u in L.u[1:]]))
+            after = np.random.get_state()
+            same_state = before[0] == after[0] and np.array_equal(before[1], after[1]) and before[2:] == after[2:]
+            if not same_state:
+                fails['global_random_state_untouched'].append(dict(sweeper=sw.__name__, random_seed=rs))
+            rngs = [L.sweep.rng for L in Ls]
+            if rngs[0] is rngs[1] or any(r is np.random or r is getattr(np.random.mtrand, '_rand', None) for r in rngs):
+                fails['each_sweeper_owns_its_generator'].append(dict(sweeper=sw.__name__, random_seed=rs))
+            if not np.array_equal(guesses[0], guesses[1]):
+                fails['same_seed_same_guess'].append(dict(sweeper=sw.__name__, random_seed=rs))
+    obs = [dict(name=f'frame:{k}', status='proved' if not bad else 'refuted', backend='native-run', seconds=0.0, kind='bounded', size=0, model=dict(first=bad[:4]) if bad else None,
+                reason='', path=0, counted=False) for k, bad in fails.items()]
+    return dict(contract='Sweeper.__init__/predict [random initial guess: generator ownership]', prop='C19', inst={}, label='bounded', kind='bounded', obligations=obs, canaries=[], paths=1, status='ok',
+                bounded=dict(what='numpy global generator state before/after construction and predict of two sweepers; generator objects compared', bound='generic_implicit and imex_1st_order, default and explicit random_seed', cases=cases,
+                             failures=sum(1 for o in obs if o['status'] != 'proved')))
+
+
 def _history_free_callees():
     # two mechanisms whose failure shows only in SEQUENCES of runs / records and that are under contract elsewhere:
     #   Hooks.add_to_stats builds every key from its own arguments (C14: a field the caller omits is None, whatever was recorded before)
     #   it_fine refreshes the sweep-dependent preconditioner of EVERY running step (C07: the steps are separate clones; a step whose
     #   coefficients were left at another sweep's values would carry them into the next block or run)
-    from contracts.C14_stats import HooksBase
+    #   Controller.add_hook leaves the parameter object alone (C14: it holds the user's own hook list, which later controllers are built from)
+    from contracts.C14_stats import HooksBase, AddHook
     from contracts.C07_block import ItFine
 
-    return [type(b.__name__ + '_C19', (b,), dict(prop='C19')) for b in (HooksBase, ItFine)]
+    return [type(b.__name__ + '_C19', (b,), dict(prop='C19')) for b in (HooksBase, ItFine, AddHook)]
 
 
 CONTRACTS = [RestartBlockPoison, ResetStats, ReturnStats] + _history_free_callees()
-EXTRAS = [bounded_runs]
+EXTRAS = [bounded_runs, check_random_generator_ownership]
 ASSUMPTIONS = ['determinism of numpy / float operations for identical inputs', 'bit identity is decided only by the bounded differential runs']
 UNDECIDED = ['class-level state of FrozenClass.attrs (status variable names registered by one controller are accepted by all): reported, not an obligation',
              'timing hooks, logging handlers, external library caches']
